@@ -332,6 +332,7 @@ void Memory::dump()
 uint8_t naken_asm_verif_pass = 0;
 uint32_t naken_asm_verif_stale_count = 0;
 uint32_t naken_asm_verif_stale_first = 0;
+uint32_t naken_asm_verif_rewritten_count = 0;
 
 uint32_t Memory::verif_count_pass1(uint32_t *first)
 {
